@@ -96,6 +96,12 @@ CHECKS = {
   design_ref="DESIGN.md §3 C15",
   note="Edge ids follow the from-label-to scheme E() lists (undocumented); ids shared by repeated links are not looked up. Only the table service shipped in the repository is used as a source.",
   technique="property-based testing: three-way differential (gripper vs. reference model vs. embedded store) over rapid-generated tables, mappings and traversals"),
+ "C16": dict(
+  category="exploration",
+  text="A small base state followed by ONE write with hostile components (graph name, vertex/edge id, label, endpoints, property names and JSON values: zero bytes, key-family prefixes, '.', reserved words and suffixes, unicode, kB-long strings, prefixes of existing ids, numeric extremes, deep nesting), at the server level (live GripServer, validation included) and at the gdbi level on kvgraph/Badger (invalid UTF-8 included); round trip (accepted => read back byte-identical by lookup, listing, adjacency, label listing, traversal) plus frame condition (the complete observation of every other element and graph is unchanged; a rejected write changes nothing). Also AddIndex/ListIndices.",
+  design_ref="DESIGN.md §3 C16",
+  note="A refusal is always allowed. Reads that probe with a never-accepted hostile id are outside the property. Inputs confirmed to crash the in-process server are replayed in a worker subprocess.",
+  technique="property-based testing: round-trip + frame-condition oracle over rapid-generated hostile identifiers and values"),
  "C17": dict(
   category="exploration",
   text="2-6 generated client sessions run concurrently (start barrier, repeated) against one live GripServer in a worker subprocess built with the Go race detector; oracles: no race report between request handlers (reports with a side in GripServer.Serve's own body are counted as start-up/shutdown, out of scope), the worker survives, the final graph equals the per-key model of acknowledged writes, readers only see values some client wrote.",
